@@ -48,9 +48,11 @@ Sites(k) ==
    \* loader does not resolve it, and above all must not READ the document it names while external references are disallowed)
    CASE k = "schemas" -> {[site |-> s, kind |-> "schemas"] : s \in {"properties", "items", "allOf", "anyOf", "oneOf", "not", "additionalProperties",
                                                                        "discriminator.mapping"}}
+     \* a parameter / header is described by `schema` or by `content` (one media type); its own `examples` are legal next to either
      [] k = "parameters" -> {[site |-> "schema", kind |-> "schemas"], [site |-> "content.schema", kind |-> "schemas"],
-                             [site |-> "examples", kind |-> "examples"]}
-     [] k = "headers" -> {[site |-> "schema", kind |-> "schemas"], [site |-> "examples", kind |-> "examples"]}
+                             [site |-> "examples", kind |-> "examples"], [site |-> "content.examples", kind |-> "examples"]}
+     [] k = "headers" -> {[site |-> "schema", kind |-> "schemas"], [site |-> "content.schema", kind |-> "schemas"],
+                          [site |-> "examples", kind |-> "examples"], [site |-> "content.examples", kind |-> "examples"]}
      [] k = "requestBodies" -> {[site |-> "content.schema", kind |-> "schemas"], [site |-> "content.examples", kind |-> "examples"],
                                 [site |-> "content.encoding.headers", kind |-> "headers"]}
      [] k = "responses" -> {[site |-> "headers", kind |-> "headers"], [site |-> "content.schema", kind |-> "schemas"],
@@ -63,6 +65,12 @@ Sites(k) ==
      [] OTHER -> {}
 
 OtherKind(k) == IF k = "schemas" THEN "parameters" ELSE "schemas"
+
+(* two child sites one object may carry at once: everything but `schema` next to `content` (parameters, headers) *)
+Compatible(k, s1, s2) == ~(k \in {"parameters", "headers"} /\ "schema" \in {s1.site, s2.site} /\ {s1.site, s2.site} \cap {"content.schema", "content.examples"} # {})
+SitePairs(k) == {p \in SUBSET Sites(k) : Cardinality(p) = 2 /\ \A a, b \in p : Compatible(k, a, b)}
+First(p) == CHOOSE x \in p : TRUE
+Second(p) == CHOOSE x \in p : x # First(p)
 
 (* the universes of one kind: shape name |-> universe *)
 U(slots, useRef, k) == [slots |-> slots, use |-> [kind |-> k, ref |-> useRef]]
@@ -166,6 +174,23 @@ Shapes(k, st) ==
                  Slot(B1, s.kind, "Y", Conc("Y", <<>>))>>, R(Root, Root, k, "X", st), k)]}
      : s \in Sites(k)}
    \cup
+   \* an object carrying TWO child sites at once (every compatible pair of its kind): the walk over one site must not end the walk
+   \* over the object (e.g. a parameter described by `content` that also has `examples`)
+   UNION {
+     {[shape |-> "childpair", site |-> First(p).site \o "+" \o Second(p).site,
+       u |-> U(<<Slot(A1, k, "X", Conc("X", <<Ch(First(p).site, First(p).kind, R(A1, B1, First(p).kind, "Y", st)),
+                                                Ch(Second(p).site, Second(p).kind, R(A1, B1, Second(p).kind, "Z", st))>>)),
+                 Slot(B1, First(p).kind, "Y", Conc("Y", <<>>)), Slot(B1, Second(p).kind, "Z", Conc("Z", <<>>))>>, R(Root, A1, k, "X", st), k)],
+      [shape |-> "childpair_root", site |-> First(p).site \o "+" \o Second(p).site,     \* ... of a component of the root document
+       u |-> U(<<Slot(Root, k, "X", Conc("X", <<Ch(First(p).site, First(p).kind, R(Root, B1, First(p).kind, "Y", st)),
+                                                  Ch(Second(p).site, Second(p).kind, R(Root, B1, Second(p).kind, "Z", st))>>)),
+                 Slot(B1, First(p).kind, "Y", Conc("Y", <<>>)), Slot(B1, Second(p).kind, "Z", Conc("Z", <<>>))>>, R(Root, Root, k, "X", st), k)],
+      [shape |-> "childpair_local", site |-> First(p).site \o "+" \o Second(p).site,    \* ... with same-document child references
+       u |-> U(<<Slot(B1, k, "X", Conc("X", <<Ch(First(p).site, First(p).kind, R(B1, B1, First(p).kind, "Y", st)),
+                                                Ch(Second(p).site, Second(p).kind, R(B1, B1, Second(p).kind, "Z", st))>>)),
+                 Slot(B1, First(p).kind, "Y", Conc("Y", <<>>)), Slot(B1, Second(p).kind, "Z", Conc("Z", <<>>))>>, R(Root, B1, k, "X", st), k)]}
+     : p \in SitePairs(k)}
+   \cup
    (IF k = "schemas" THEN
      \* a local reference of the root document that does NOT point into components: the body schema of one of its own paths
      {[shape |-> "pathfragment",
@@ -246,6 +271,11 @@ PathItemShapes(st) ==
        u |-> U(<<Slot(A1, PI, "x", Conc("X", <<Ch(s.site, s.kind, R(A1, Root, s.kind, "Y", st))>>)), Slot(Root, s.kind, "Y", Conc("RootY", <<>>))>>,
                R(Root, A1, PI, "x", st), PI)]}
      : s \in Sites(PI)}
+   \cup {[shape |-> "pi_childpair", site |-> First(p).site \o "+" \o Second(p).site,
+           u |-> U(<<Slot(A1, PI, "x", Conc("X", <<Ch(First(p).site, First(p).kind, R(A1, B1, First(p).kind, "Y", st)),
+                                                     Ch(Second(p).site, Second(p).kind, R(A1, B1, Second(p).kind, "Z", st))>>)),
+                     Slot(B1, First(p).kind, "Y", Conc("Y", <<>>)), Slot(B1, Second(p).kind, "Z", Conc("Z", <<>>))>>, R(Root, A1, PI, "x", st), PI)]
+          : p \in SitePairs(PI)}
 
 (* file_rel_default: relative LoadFromFile through the library's default (caching) reader; the   *)
 (* universes of a run are loaded one after the other in one process, each from its own directory  *)
@@ -273,6 +303,7 @@ QuickSlice(sh, st, e, pos) ==
    \/ (sh.shape = "childdangling_whole" /\ st = "plain" /\ e \in {"file_abs", "file_rel"} /\ pos = "op")
    \/ (sh.shape = "samepath_twohosts" /\ st = "plain" /\ e \in {"file_abs", "uri_remote", "datapath"})
    \/ (sh.shape = "deepfragment" /\ e \in {"file_abs", "file_rel"})
+   \/ (sh.shape \in {"childpair", "childpair_root", "childpair_local", "pi_childpair"} /\ st = "plain" /\ e = "file_abs" /\ pos = "op")
    \/ (sh.shape \in {"child", "chain3", "diamond"} /\ e = "file_abs" /\ pos = "op")
    \/ (sh.shape \in {"direct", "child", "pi_direct", "pi_wholefile", "pi_child"} /\ st = "plain" /\ pos = "op")
    \/ (sh.shape \in {"direct", "chain3", "wholefile"} /\ e = "file_rel_default" /\ pos = "op")
